@@ -13,6 +13,7 @@ Non-trivial: an exchange whose clock advances between reads or whose response id
 version was perturbed; distinct = distinct (op, args, proto, clock, perturbation).
 """
 from harness import opslib as O
+from harness import berlib as BL
 from harness import refagent as RA
 from harness import walklib as W
 from harness.common import Result, run_driver
@@ -112,6 +113,25 @@ def run(ctx):
         version, level = O.PROTOS[i % len(O.PROTOS)] if i % 2 else ("v2c", "noauth")
         ck, clock = clocks(ctx.rng)
         one_case(ctx, res, db, name, args, version, level, perts[i % len(perts)], ck, clock, reqs, impls)
+    # SNMPv3 retransmission after a notInTimeWindow report (agent restarted) under an advancing clock:
+    # the retransmitted PDU and the id the response is validated against must be the same id
+    for i in range(ctx.budget(40, 600)):
+        level = ["noauth", "auth", "authpriv", "auth-sha1"][i % 4]
+        db = [((1, 3, 6, 1, 2, 1, 1, 1, 0), ["str", "6f6b"])]
+        agent = RA.Agent(db=db, v3=RA.V3Config())
+        client = W.make_client(agent, "v3", level)
+        base = ctx.rng.randrange(1, 2**31 - 1000)
+        step = ctx.rng.choice([1, 1, 5, 3600])
+        with O.with_clock([base + j * step for j in range(64)]):
+            first = BL.guarded(lambda: W.run(client.get(RA.OID([1, 3, 6, 1, 2, 1, 1, 1, 0]))), 5.0)
+            agent.v3.boots += 1  # the agent restarts: the next authenticated request is outside its window
+            second = BL.guarded(lambda: W.run(client.get(RA.OID([1, 3, 6, 1, 2, 1, 1, 1, 0]))), 5.0)
+        res.evaluations += 1
+        res.count("retransmission-under-stepping-clock")
+        case = {"level": level, "clock_base": base, "clock_step": step}
+        if first[0] != "ok" or second[0] != "ok":
+            res.violate("e2e-retry-id", case, "both requests succeed (the agent echoes the id of every PDU it answers)", [list(first)[:2], list(second)[:2]],
+                        "a conformant echoing agent was refused around a retransmission", {"kind": "echo-refused", "op": "retransmission"})
     # walks under a stepping clock: echoing agent must be accepted at every request; a perturbed k-th answer must raise
     for i in range(ctx.budget(120, 3000)):
         db, roots = W.random_case(ctx.rng, max_inst=20, max_roots=3)
